@@ -230,21 +230,37 @@ example : wf (.struct [67] [([97], .float, some (.flt [49, 46, 48])), ([98], .op
 
 /-! ## 5. Errors: which, when, and what they name -/
 
+/-- **only_config_error** (full strength): whatever the type and the data, the only exception that leaves
+`_parse_config_value` / `config_struct_from_dict` is a configuration error. -/
+theorem only_config_error (τ : Ty) (j : PV) (p : Path) (e : PyExc)
+    (h : parseValue τ j p = .error e) : ∃ c q, e = .config c q := by
+  obtain ⟨r, k, _, he⟩ := err_spec τ j p e h
+  exact ⟨k, p ++ r, he⟩
+
+/-- every outcome is a structure or a configuration error — nothing else -/
+theorem parse_total (τ : Ty) (j : PV) (p : Path) :
+    (∃ v, parseValue τ j p = .ok v) ∨ (∃ c q, parseValue τ j p = .error (.config c q)) := by
+  cases h : parseValue τ j p with
+  | ok v => exact Or.inl ⟨v, rfl⟩
+  | error e => obtain ⟨c, q, rfl⟩ := only_config_error τ j p e h; exact Or.inr ⟨c, q, rfl⟩
+
 /-- **error_names_item**: a configuration error carries the path of an offending item — the reported path extends
 the path of the call by a relative path `r` that leads to an item of exactly the reported kind (type mismatch /
 missing required field / unknown field). -/
 theorem error_names_item (τ : Ty) (j : PV) (p q : Path) (c : CfgKind)
-    (h : parseValue τ j p = .error (.config c q)) : ∃ r, q = p ++ r ∧ Offends τ j r (.cfg c) := by
+    (h : parseValue τ j p = .error (.config c q)) : ∃ r, q = p ++ r ∧ Offends τ j r c := by
   obtain ⟨r, k, ho, he⟩ := err_spec τ j p _ h
-  cases k with
-  | cfg c' => simp only [mkExc, PyExc.config.injEq] at he; obtain ⟨rfl, rfl⟩ := he; exact ⟨r, rfl, ho⟩
-  | nonSized => simp [mkExc] at he
-  | hugeInt => simp [mkExc] at he
+  simp only [PyExc.config.injEq] at he
+  obtain ⟨rfl, rfl⟩ := he
+  exact ⟨r, rfl, ho⟩
 
 /-- **offending_is_rejected**: *whenever* some item is unknown, missing without default or not admitted by its
-declared type, conversion fails (for every path argument). -/
-theorem offending_is_rejected {τ : Ty} {j : PV} {r : Path} {k : ErrKind} (h : Offends τ j r k) (p : Path) :
-    ∃ e, parseValue τ j p = .error e := offending_rejected h p
+declared type, conversion fails (for every path argument) — by `only_config_error`, with a configuration error. -/
+theorem offending_is_rejected {τ : Ty} {j : PV} {r : Path} {k : CfgKind} (h : Offends τ j r k) (p : Path) :
+    ∃ c q, parseValue τ j p = .error (.config c q) := by
+  obtain ⟨e, he⟩ := offending_rejected h p
+  obtain ⟨c, q, rfl⟩ := only_config_error τ j p e he
+  exact ⟨c, q, he⟩
 
 /-- conversion succeeds iff there is no offending item -/
 theorem accepted_iff_no_offender (τ : Ty) (j : PV) (p : Path) :
@@ -260,78 +276,40 @@ theorem accepted_iff_no_offender (τ : Ty) (j : PV) (p : Path) :
       obtain ⟨r, k, ho, _⟩ := err_spec τ j p e hp
       exact absurd ⟨r, k, ho⟩ hno
 
-/-
-**only_config_error** (full strength; FALSE of the pinned tree, see the two witnesses below):
+/-- a value without `len()` (`None`, `bool`, `int`, `float`, an instance) in a fixed-length `Tuple[...]` field is a
+type mismatch naming the item (before commit 98ede17 this class escaped as `TypeError`) -/
+theorem nonsized_is_mismatch (ts : List Ty) (j : PV) (p : Path)
+    (h : ∀ xs, j ≠ .list xs ∧ j ≠ .tuple xs) : parseValue (.tupleFix ts) j p = .error (.config .mismatch p) := by
+  cases j with
+  | list xs => exact absurd rfl (h xs).1
+  | tuple xs => exact absurd rfl (h xs).2
+  | _ => simp only [parseValue]; rfl
 
-    theorem only_config_error (τ : Ty) (j : PV) (p : Path) (e : PyExc)
-        (h : parseValue τ j p = .error e) : ∃ c q, e = .config c q
--/
-
-/-- **only_config_error_partial**: the only exceptions that are not configuration errors come from the two input
-classes `Offends … .nonSized` (a value without `len()` — `None`, `bool`, `int`, `float`, an instance — reaching a
-fixed-length `Tuple[...]` field) and `Offends … .hugeInt` (an integer with `|n| ≥ 2^1024 − 2^970` reaching a `float`
-field). Outside them every failure is a `QMI_ConfigurationException`. -/
-theorem only_config_error_partial (τ : Ty) (j : PV) (p : Path) (e : PyExc)
-    (h : parseValue τ j p = .error e)
-    (hns : ∀ r, ¬ Offends τ j r .nonSized) (hhi : ∀ r, ¬ Offends τ j r .hugeInt) :
-    ∃ c q, e = .config c q := by
-  obtain ⟨r, k, ho, he⟩ := err_spec τ j p e h
-  cases k with
-  | cfg c => exact ⟨c, p ++ r, he⟩
-  | nonSized => exact absurd ho (hns r)
-  | hugeInt => exact absurd ho (hhi r)
-
-/-- which exception types can escape at all, and from which class each comes -/
-theorem escaping_exceptions (τ : Ty) (j : PV) (p : Path) (e : PyExc) (h : parseValue τ j p = .error e) :
-    (∃ c q, e = .config c q) ∨ (e = .typeError ∧ ∃ r, Offends τ j r .nonSized) ∨
-    (e = .overflowError ∧ ∃ r, Offends τ j r .hugeInt) := by
-  obtain ⟨r, k, ho, he⟩ := err_spec τ j p e h
-  cases k with
-  | cfg c => exact Or.inl ⟨c, p ++ r, he⟩
-  | nonSized => exact Or.inr (Or.inl ⟨he, r, ho⟩)
-  | hugeInt => exact Or.inr (Or.inr ⟨he, r, ho⟩)
-
-/-- the first excluded class really escapes: *every* non-sized value in *every* fixed-length tuple field -/
-theorem nonsized_escapes (ts : List Ty) (j : PV) (p : Path) (h : pyLen j = .none) :
-    parseValue (.tupleFix ts) j p = .error .typeError := by
-  rw [parseValue_tupleFix]; simp [h]
-
-/-- the second excluded class really escapes: *every* integer beyond the float range in a float field -/
-theorem hugeint_escapes (n : Int) (p : Path) (h : floatOverflow n = true) :
-    parseValue .float (.int n) p = .error .overflowError := by
-  rw [parseValue_float_int]; simp [h]
-
-/-- negation of the full-strength statement, witness 1: `x: Tuple[int, int]` given `5` -/
-theorem only_config_error_false_typeError :
-    ¬ (∀ (τ : Ty) (j : PV) (p : Path) (e : PyExc), parseValue τ j p = .error e → ∃ c q, e = .config c q) := by
-  intro hall
-  have h := hall (.struct [67] [([120], .tupleFix [.int, .int], .none)]) (.dict [([120], .int 5)]) [] .typeError rfl
-  obtain ⟨c, q, hc⟩ := h
-  cases hc
+/-- an integer beyond the float range in a float field is a type mismatch naming the item (before commit f71d1e5
+this class escaped as `OverflowError`) -/
+theorem hugeint_is_mismatch (n : Int) (p : Path) (h : floatOverflow n = true) :
+    parseValue .float (.int n) p = .error (.config .mismatch p) := by
+  rw [parseValue_float_int]; simp [h, mismatch]
 
 set_option exponentiation.threshold 2000 in
-/-- the boundary of the second class is exact: `2^1024 − 2^970` overflows, its predecessor converts -/
+/-- the boundary of the float range is exact: `2^1024 − 2^970` does not convert, its predecessor does -/
 theorem float_boundary :
     floatOverflow (2 ^ 1024 - 2 ^ 970) = true ∧ floatOverflow (2 ^ 1024 - 2 ^ 970 - 1) = false ∧
     floatOverflow (-(2 ^ 1024 - 2 ^ 970)) = true := by
   unfold floatOverflow; decide +kernel
 
-set_option exponentiation.threshold 2000 in
-/-- negation of the full-strength statement, witness 2: `x: float` given `10**400` -/
-theorem only_config_error_false_overflow :
-    ¬ (∀ (τ : Ty) (j : PV) (p : Path) (e : PyExc), parseValue τ j p = .error e → ∃ c q, e = .config c q) := by
-  intro hall
-  have h := hall .float (.int (10 ^ 400)) [] .overflowError (hugeint_escapes _ _ (by decide +kernel))
-  obtain ⟨c, q, hc⟩ := h
-  cases hc
-
--- non-vacuity of `only_config_error_partial`: a wrong scalar two levels down is a configuration error with its path
+-- non-vacuity: a wrong scalar two levels down is a configuration error with its path
 example : parseValue (.struct [67] [([120], .list (.tupleFix [.int, .str]), .none)])
     (.dict [([120], .list [.list [.int 1, .str []], .list [.int 1, .int 2]])]) [] =
     .error (.config .mismatch [.field [120], .idx 1, .idx 1]) := rfl
--- … and the excluded classes are exactly where the hypotheses fail
-example : Offends (.struct [67] [([120], .tupleFix [.int, .int], .none)]) (.dict [([120], .int 5)]) [.field [120]] .nonSized :=
-  .field (d := .none) (List.mem_cons_self) rfl (.nonSized rfl)
+-- the two formerly escaping inputs: `x: Tuple[int, int]` given `5`, `x: float` given `10**400`
+example : parseValue (.struct [67] [([120], .tupleFix [.int, .int], .none)]) (.dict [([120], .int 5)]) [] =
+    .error (.config .mismatch [.field [120]]) := rfl
+set_option exponentiation.threshold 2000 in
+example : parseValue .float (.int (10 ^ 400)) [] = .error (.config .mismatch []) :=
+  hugeint_is_mismatch _ _ (by decide +kernel)
+example : Offends (.struct [67] [([120], .tupleFix [.int, .int], .none)]) (.dict [([120], .int 5)]) [.field [120]] .mismatch :=
+  .field (d := .none) (List.mem_cons_self) rfl (.mismatch rfl)
 
 /-! ## 6. The keyword constructor validates every given value -/
 
